@@ -90,7 +90,7 @@ def make_units(tier):
                 continue
             u = dict(u, bound=1, shard=[0, 1])
         units.append(dict(u, src='c01', monitors=['legality']))
-    for u in c10.make_units(tier):
+    for u in c10._base_make_units(tier):
         units.append(dict(u, src='c10', monitors=['legality']))
     for u in c09.make_units(tier):
         units.append(dict(u, src='c09', monitors=['legality']))
